@@ -16,7 +16,7 @@
 Values: None, bool, int, float (small dyadic rationals only: the model's arithmetic on them is exact),
 str, tuple, list, dict with str keys.  Observations are typed: 1, 1.0 and True differ.
 """
-import json, math, sys
+import json, math, os, subprocess, sys
 from fractions import Fraction
 from common import *
 
@@ -140,12 +140,14 @@ def full_args(e):
 
 # ---- Python source text ------------------------------------------------------------------------------
 def scalar_source(v):
-    if v is None or isinstance(v, (bool, int, str)):
+    if v is None or isinstance(v, (bool, str)):
         return repr(v)
+    if isinstance(v, int):
+        return "(%r)" % v if v < 0 else repr(v)          # -3 ** p is -(3 ** p)
     if isinstance(v, float):
         if v != v or v in (float("inf"), float("-inf")):
             return "float(%r)" % repr(v)
-        return repr(v)
+        return "(%r)" % v if math.copysign(1.0, v) < 0 else repr(v)
     raise TypeError("scalar_source: %r" % (v,))
 
 
@@ -375,6 +377,8 @@ Definition FUEL : nat := Z.to_nat 150000.
 Definition cmpr := check_trace Val.binop LMAX FUEL.
 Definition trc := trace Val.binop LMAX FUEL.
 """
+CHUNK_TIMEOUT = 25
+TERM_TIMEOUT = 6
 EXTRA_TARGETS = ["Generated/TablesPat.vo", "Pat/Script.vo"]
 EXTRA_GENERATORS = ["gen_tables_pat.py"]
 
@@ -454,11 +458,43 @@ def run_model(run, cases, chunk=150):
         return
     chunks = [(i, terms[i:i + chunk]) for i in range(0, len(terms), chunk)]
 
-    def one(ic):
-        i0, ts = ic
+    def coqc(name, ts, timeout):
+        """verdict codes of the terms, or None when coqc did not finish within `timeout` seconds"""
         src = HEADER + "\nDefinition results : list verdict := [\n" + ";\n".join(ts) + "\n].\n" \
             "Eval vm_compute in (map verdict_code results).\n"
-        return parse_nat_list(run.coqc_text("pat%d" % i0, src))
+        run._coq_counter += 1
+        path = os.path.join(run.work, "W%s_%s_%d.v" % (run.prop, name, run._coq_counter))
+        with open(path, "w") as f:
+            f.write(src)
+        r = subprocess.run(["timeout", str(timeout), "coqc", "-Q", COQDIR, "Isobar", path],
+                           capture_output=True, text=True, cwd=run.work)
+        if r.returncode == 124:
+            return None
+        if r.returncode != 0:
+            raise CheckError("coqc failed on %s:\n%s" % (path, (r.stdout + r.stderr)[-3000:]))
+        return parse_nat_list(r.stdout)
+
+    def one(ic):
+        # the model is quadratic where Python is linear (list append / indexing): a chunk that does not finish
+        # is re-run term by term and the terms that are too slow for the model are discarded (code 3)
+        i0, ts = ic
+        r = coqc("pat%d" % i0, ts, CHUNK_TIMEOUT)
+        if r is not None:
+            return r
+        groups = [(j, ts[j:j + 10]) for j in range(0, len(ts), 10)]
+
+        def small(jg):
+            j, g = jg
+            r1 = coqc("pat%d_%d" % (i0, j), g, TERM_TIMEOUT)
+            if r1 is not None:
+                return r1
+            res = []
+            for k, t in enumerate(g):
+                r2 = coqc("pat%d_%d_%d" % (i0, j, k), [t], TERM_TIMEOUT)
+                res.append(3 if r2 is None else r2[0])
+            return res
+        with ThreadPoolExecutor(max_workers=8) as ex2:
+            return [c for r1 in ex2.map(small, groups) for c in r1]
     codes = []
     with ThreadPoolExecutor(max_workers=12) as ex:
         for r in ex.map(one, chunks):
@@ -466,9 +502,11 @@ def run_model(run, cases, chunk=150):
     if len(codes) != len(terms):
         raise CheckError("model returned %d verdicts for %d cases" % (len(codes), len(terms)))
     for c, k in zip(idx, codes):
-        c.verdict = ("agree", "disagree", "discard")[k]
+        c.verdict = ("agree", "disagree", "discard", "discard")[k]
         if k == 2:
             c.status = "model: Inexact/OutOfFuel"
+        elif k == 3:
+            c.status = "model-too-slow"
 
 
 def model_trace(run, case):
@@ -805,7 +843,7 @@ def g_pingpong(g, d, fin):
 
 
 def g_stutter(g, d, fin):
-    x = g.gen(d, fin) if g.rng.random() < 0.93 else g.num()
+    x = g.gen(d, fin) if (fin or g.rng.random() < 0.93) else g.num()      # a scalar is wrapped: an endless constant
     if g.rng.random() < 0.8:
         return E("PStutter", x, g.arg(d, lambda: g.small(0, 3), 0.3)), g.known_finite(x)
     return E("PStutter", x), g.known_finite(x)
